@@ -20,6 +20,7 @@ package main
 // before it is reported.
 
 import (
+	"errors"
 	"context"
 	"encoding/json"
 	"fmt"
@@ -63,6 +64,9 @@ type c16Sender struct {
 	note chan struct{}
 	fwd  func(layers.BFD, int)
 	t0   time.Time
+	// errAt: sequence numbers at which Send reports an error (the packet is
+	// not transmitted), as a socket would under ENOBUFS / ENETUNREACH.
+	errAt map[int]bool
 }
 
 func newC16Sender(note chan struct{}) *c16Sender {
@@ -78,10 +82,14 @@ func (c *c16Sender) Send(p *layers.BFD) error {
 	seq := len(c.recs)
 	c.recs = append(c.recs, c16Sent{Seq: seq, T: now, Ms: float64(now.Sub(c.t0).Microseconds()) / 1000, State: uint8(p.State),
 		Your: uint32(p.YourDiscriminator), TxUs: uint32(p.DesiredMinTxInterval)})
+	fail := c.errAt[seq]
 	c.mu.Unlock()
 	select {
 	case c.note <- struct{}{}:
 	default:
+	}
+	if fail {
+		return errors.New("injected send error")
 	}
 	if c.fwd != nil {
 		c.fwd(*p, seq)
@@ -871,6 +879,10 @@ type c16Pair struct {
 	ActsBA    []c16Act `json:"hostile_b_to_a"`
 	AdminDown bool     `json:"forges_admindown"`
 	Stay      int      `json:"stay_packets"`
+	// SendErrA/B: sequence numbers at which the sender of A / B reports an
+	// error instead of transmitting (isolated: the detection multipliers are >= 3).
+	SendErrA []int `json:"send_errors_a,omitempty"`
+	SendErrB []int `json:"send_errors_b,omitempty"`
 }
 
 type c16Delivery struct {
@@ -1082,6 +1094,25 @@ func c16GenPair(rng *rand.Rand, idx int) c16Pair {
 		}
 		p.AdminDown = has
 	}
+	if rng.IntN(3) == 0 {
+		gen := func() []int {
+			var out []int
+			q := 1 + rng.IntN(12)
+			for k := 1 + rng.IntN(2); k > 0; k-- {
+				out = append(out, q)
+				q += 9 + rng.IntN(10)
+			}
+			return out
+		}
+		switch rng.IntN(3) {
+		case 0:
+			p.SendErrA = gen()
+		case 1:
+			p.SendErrB = gen()
+		default:
+			p.SendErrA, p.SendErrB = gen(), gen()
+		}
+	}
 	return p
 }
 
@@ -1136,6 +1167,16 @@ func c16RunPair(r *mon.Run, pc c16Pair, rerun bool) *c16Miss {
 		ba.clean, ba.cleanAt = true, time.Now()
 	}
 	sa.fwd, sb.fwd = ab.push, ba.push
+	sa.errAt, sb.errAt = map[int]bool{}, map[int]bool{}
+	for _, q := range pc.SendErrA {
+		sa.errAt[q] = true
+	}
+	for _, q := range pc.SendErrB {
+		sb.errAt[q] = true
+	}
+	if len(pc.SendErrA)+len(pc.SendErrB) > 0 {
+		r.Event("pair_with_send_errors")
+	}
 	la := c16Start(pc.A, sa)
 	lb := c16Start(pc.B, sb)
 	ab.dst, ba.dst = lb.s, la.s
@@ -1603,7 +1644,7 @@ func checkC16(r *mon.Run) {
 	r.Extra("wall_table_s", tTable.Seconds())
 	r.Extra("histories", nHist)
 	r.Extra("pairs", nPair)
-	r.Require(int64(nHist*3), 60, "table_cell", "script_run", "m2_recv_accept", "m2_recv_discard", "m2_recv_unjudged",
+	r.Require(int64(nHist*3), 60, "pair_with_send_errors", "table_cell", "script_run", "m2_recv_accept", "m2_recv_discard", "m2_recv_unjudged",
 		"m2_expire", "m2_keepalive", "m3_recovered", "m3_stayed_up", "m3_timed_out", "m3_restored")
 }
 
